@@ -25,7 +25,7 @@ inductive Val where
   | names (l : List Name)
   | nat (n : Nat)
   | info (name : Name) (isDir : Bool) (size : Nat)
-  deriving Repr, Inhabited
+  deriving Repr, Inhabited, DecidableEq
 
 inductive Op where
   | exists_ (p : Str) | isdir (p : Str) | isfile (p : Str)
